@@ -10,6 +10,7 @@ import (
 	"io"
 	"math"
 	"sort"
+	"strconv"
 	"strings"
 	"sync"
 	"time"
@@ -175,6 +176,7 @@ type hostRunner struct {
 	mu       sync.Mutex    // converted handlers run on goroutines of the bridge
 	nsched   int           // entries of the schedule consumed so far
 	voidFail []int         // schedule entries asking a handler without a result (act1) to fail: it cannot
+	errTexts []string      // the message of every error Next returned (compared between executions by the random family)
 }
 
 var errScheduled = errors.New("scheduled failure")
@@ -396,6 +398,7 @@ func (h *hostRunner) next(choice int) (out *sx.Node) {
 		}
 		return sx.Tag("wait")
 	case err != nil:
+		h.errTexts = append(h.errTexts, err.Error())
 		return sx.Tag("err")
 	case el == nil:
 		return sx.Tag("end")
@@ -459,6 +462,24 @@ func caseTexts(c *sx.Node) []string {
 
 // runRunnerCase executes a (runner ...) case.
 func runRunnerCase(c *sx.Node) *sx.Node {
+	n, _ := runRunnerCaseErrs(c)
+	return n
+}
+
+// runRunnerCaseErrs also returns the messages of the errors Next returned, runner by runner.
+func runRunnerCaseErrs(c *sx.Node) (res *sx.Node, errTexts []string) {
+	var runners []*hostRunner
+	defer func() {
+		for i, h := range runners {
+			for _, t := range h.errTexts {
+				errTexts = append(errTexts, strconv.Itoa(i)+": "+t)
+			}
+		}
+	}()
+	return runRunnerCaseOn(c, &runners), nil
+}
+
+func runRunnerCaseOn(c *sx.Node, out *[]*hostRunner) *sx.Node {
 	seed := c.L[1].L[1].Text()
 	storerMode := c.L[2].L[1].Int() != 0
 	init := c.L[3].Args()
@@ -490,6 +511,7 @@ func runRunnerCase(c *sx.Node) *sx.Node {
 		}
 		runners = append(runners, h)
 	}
+	*out = runners
 	st := &execState{runners: runners, snaps: map[int]*ysgo.Snapshot{}}
 	obs := []*sx.Node{}
 	for _, op := range c.L[10].Args() {
